@@ -165,6 +165,7 @@ type c14DB struct {
 }
 
 var c14DBs = []c14DB{
+	{[]AuthUser{{"guest", ""}, {"alice", "s3cret"}, {"nopw", ""}, {"bob", "hunter2"}, {"zed", "last-one"}}},
 	{[]AuthUser{{"alice", "s3cret"}}},
 	{[]AuthUser{{"alice", "s3cret"}, {"bob", "s3cret"}, {"carol", ""}}},
 	{[]AuthUser{{"alice", "pässwörd-ü"}, {"Alice", "other"}, {"dave", "x"}, {"erin", "a b c"}, {"frank", "S3cret"}}},
@@ -245,7 +246,7 @@ func CheckC14(l *Lab, verifDir string) int {
 		wg.Wait()
 		for bi, be := range backends {
 			if be != nil {
-				c14Replay(rep, be, c14DBs[bi], mode, l.Pick(150, 700))
+				c14Replay(rep, be, c14DBs[bi], mode, l.Pick(300, 1100))
 			}
 		}
 		for _, p := range procs {
@@ -482,6 +483,12 @@ func c14History(rep *Report, be ntlmBackend, db c14DB, seed int64, id int, mode 
 // also compared: a challenge that comes back is what would make the replay work).
 func c14Replay(rep *Report, be ntlmBackend, db c14DB, mode, n int) {
 	u := db.users[0]
+	for _, cand := range db.users {
+		if cand.Name != "" && cand.Password != "" {
+			u = cand
+			break
+		}
+	}
 	neg := func(sess string) (*NTLMChallenge, bool) {
 		r, err := be.NTLM(sess, B64(NTLMType1()))
 		if err != nil || r == nil || r.NtlmMessage == "" {
@@ -517,6 +524,11 @@ func c14Replay(rep *Report, be ntlmBackend, db c14DB, mode, n int) {
 			rep.Violate("C14/server-challenge-repeats", fmt.Sprintf("negotiate number %d was given the same server challenge as negotiate number %d (%x)", k, first, c2.ServerChallenge), nil)
 		}
 		seen[string(c2.ServerChallenge)] = k
+		// ... and as the very first message of a session nobody negotiated in
+		if rf, err := be.NTLM(fmt.Sprintf("replay-m%d-fresh-%d", mode, k), B64(t3)); err == nil && rf != nil && rf.Authenticated {
+			rep.Violate("C14/authenticated-without-proof/replay-without-negotiate", fmt.Sprintf("an authenticate message recorded in one session was accepted as %q as the first message of a fresh session, %d sessions later", rf.Username, k), nil)
+			break
+		}
 		r, err := be.NTLM(sess, B64(t3))
 		rep.Count("replay_presentations", 1)
 		if err == nil && r != nil && r.Authenticated {
